@@ -16,7 +16,9 @@ import (
 	"os"
 	"os/exec"
 	"path/filepath"
+	"sort"
 	"strings"
+	"sync"
 	"testing"
 
 	"tunnox-core/verif/vkit"
@@ -46,10 +48,13 @@ func TestMain(m *testing.M) {
 }
 
 type tailBuf struct {
+	mu sync.Mutex
 	bytes.Buffer
 }
 
 func (t *tailBuf) Write(p []byte) (int, error) {
+	t.mu.Lock()
+	defer t.mu.Unlock()
 	if t.Len() < 4<<20 {
 		t.Buffer.Write(p)
 	}
@@ -65,6 +70,20 @@ func supervise() (code int, handled bool) {
 	defer os.Remove(pending)
 	cmd := exec.Command(os.Args[0], os.Args[1:]...)
 	cmd.Env = append(os.Environ(), envChild+"=1", envPending+"="+pending)
+	// Under -race a report would end the child (exit 66) at the first racy access of the code under
+	// test and nothing else would be explored. Races are not C02 violations by themselves (their
+	// consequences on the byte stream are what the oracle checks), so the child logs them and goes
+	// on; the parent lists them in the evidence fragment.
+	raceLog := ""
+	if raceEnabled && os.Getenv("GORACE") == "" {
+		raceLog = filepath.Join(dir, fmt.Sprintf("c02-race-%d", os.Getpid()))
+		cmd.Env = append(cmd.Env, "GORACE=halt_on_error=0 exitcode=0 log_path="+raceLog)
+	}
+	defer func() {
+		if raceLog != "" {
+			reportRaces(raceLog)
+		}
+	}()
 	var buf tailBuf
 	cmd.Stdout = io.MultiWriter(os.Stdout, &buf)
 	cmd.Stderr = io.MultiWriter(os.Stderr, &buf)
@@ -81,6 +100,11 @@ func supervise() (code int, handled bool) {
 	}
 	key, detail, ok := classifyCrash(buf.String())
 	if !ok {
+		if raceLog != "" && onlyRaceFailures(buf.String()) {
+			// the testing package fails a test during which the detector reported a race, whatever
+			// GORACE says; no oracle failed, no crash, no timeout: the races are listed, not judged
+			return 0, true
+		}
 		return rc, true
 	}
 	rep := crashReport{Key: key, Detail: detail}
@@ -187,4 +211,113 @@ func TestCrashReport(t *testing.T) {
 	json.Unmarshal(rep.Case, &c)
 	vkit.Violation(t, rep.Key, rep.Detail+" (crashes are schedule dependent: replaying the case may need several attempts)", c)
 	vkit.Case("known:"+rep.Key, false, "")
+}
+
+// reportRaces summarises the race detector's log files of the child and adds the summary to the
+// evidence fragment the child wrote.
+func reportRaces(prefix string) {
+	files, _ := filepath.Glob(prefix + ".*")
+	counts := map[string]int{}
+	for _, f := range files {
+		b, err := os.ReadFile(f)
+		if err != nil {
+			continue
+		}
+		for _, blk := range strings.Split(string(b), "WARNING: DATA RACE")[1:] {
+			if i := strings.Index(blk, "=================="); i >= 0 {
+				blk = blk[:i]
+			}
+			var sides []string
+			for _, part := range strings.Split(strings.TrimSpace(blk), "\n\n") {
+				lines := strings.Split(part, "\n")
+				if len(lines) < 2 || !(strings.Contains(lines[0], "rite at ") || strings.Contains(lines[0], "ead at ")) {
+					continue
+				}
+				what := strings.Fields(lines[0])[0]
+				if strings.HasPrefix(lines[0], "Previous") {
+					what = "previous " + strings.Fields(lines[0])[1]
+				}
+				site := ""
+				for i := 1; i+1 < len(lines); i += 2 {
+					fn := strings.TrimSpace(lines[i])
+					if j := strings.LastIndex(fn, "("); j > 0 {
+						fn = fn[:j]
+					}
+					if strings.HasPrefix(fn, "tunnox-core/internal/") {
+						loc := strings.Fields(strings.TrimSpace(lines[i+1]))
+						site = strings.TrimPrefix(fn, "tunnox-core/internal/")
+						if len(loc) > 0 {
+							site += "@" + filepath.Base(loc[0])
+						}
+						break
+					}
+				}
+				if site == "" {
+					site = "(outside tunnox-core/internal)"
+				}
+				sides = append(sides, what+" "+site)
+			}
+			if len(sides) >= 2 {
+				counts[sides[0]+" || "+sides[1]]++
+			}
+		}
+		os.Remove(f)
+	}
+	if len(counts) == 0 {
+		return
+	}
+	var list []string
+	total := 0
+	for k, n := range counts {
+		list = append(list, fmt.Sprintf("%s (x%d)", k, n))
+		total += n
+	}
+	sort.Strings(list)
+	fmt.Printf("C02: the race detector reported %d data races (%d distinct) in this shard; not C02 violations by themselves:\n  %s\n", total, len(list), strings.Join(list, "\n  "))
+	out := os.Getenv("VERIF_OUT")
+	if out == "" {
+		return
+	}
+	b, err := os.ReadFile(out)
+	if err != nil {
+		return
+	}
+	var frag map[string]any
+	if json.Unmarshal(b, &frag) != nil {
+		return
+	}
+	extra, _ := frag["extra"].(map[string]any)
+	if extra == nil {
+		extra = map[string]any{}
+	}
+	extra["data_race_reports"] = total
+	extra["data_races_distinct_one_shard"] = list
+	frag["extra"] = extra
+	if nb, err := json.Marshal(frag); err == nil {
+		os.WriteFile(out, nb, 0o644)
+	}
+}
+
+// onlyRaceFailures reports whether every failing test of the child failed for no other reason than
+// "race detected during execution of test".
+func onlyRaceFailures(out string) bool {
+	if strings.Contains(out, "panic:") || strings.Contains(out, "VIOLATION-KEY") || strings.Contains(out, "fatal error:") {
+		return false
+	}
+	sawFail := false
+	inFail := false
+	for _, ln := range strings.Split(out, "\n") {
+		t := strings.TrimSpace(ln)
+		switch {
+		case strings.HasPrefix(t, "--- FAIL:"):
+			sawFail, inFail = true, true
+		case strings.HasPrefix(t, "--- ") || strings.HasPrefix(t, "=== ") || t == "FAIL" || t == "PASS" || t == "" || strings.HasPrefix(t, "C02:"):
+			inFail = false
+		case inFail && strings.HasPrefix(ln, " "):
+			if !strings.Contains(t, "race detected during execution of test") {
+				return false
+			}
+		}
+	}
+	return sawFail
 }
